@@ -63,6 +63,10 @@ pub struct C16 {
     pub max_len_mode: u8,
     pub init_buf: u32,
     pub use_ctx: bool,
+    /// index of the item before which set_max_len is applied (items before it see the default 512 KiB)
+    pub knob_at: u32,
+    /// before this item, on the idle writer: into_parts() + with_buffer() round trip
+    pub rewrap_at: Option<u32>,
     pub sink: Vec<Step>,
     pub caller: Vec<Decide>,
 }
@@ -330,16 +334,19 @@ impl C16 {
             })
             .collect();
         let max_payload = payloads.iter().flatten().map(|p| p.len()).max().unwrap_or(0);
-        let max_len: usize = match self.max_len_mode {
+        let knob_len: usize = match self.max_len_mode {
             1 => max_payload,
             2 => max_payload.saturating_sub(1),
             3 => 8,
             _ => 512 * 1024,
         };
+        let knob_at = if self.max_len_mode == 0 { 0 } else { self.knob_at as usize };
+        let max_len_for = |idx: usize| if idx >= knob_at { knob_len } else { 512 * 1024 };
         let mut layout = Layout::default();
         let mut off = 0;
-        for p in payloads.iter().flatten() {
-            if p.len() <= max_len {
+        for (i, p) in payloads.iter().enumerate() {
+            let Some(p) = p else { continue };
+            if p.len() <= max_len_for(i) {
                 layout.push(off, p.len());
                 off += 4 + p.len();
             }
@@ -351,10 +358,6 @@ impl C16 {
         let mut writer = AsyncWriter::with_buffer(SimAsyncSink(core.clone()), garbage(self.init_buf as usize));
         if self.init_buf > 0 {
             obs.borrow_mut().fault(fk::garbage_buffer);
-        }
-        if self.max_len_mode != 0 {
-            writer.set_max_len(max_len as u32);
-            obs.borrow_mut().fault(fk::max_len_knob);
         }
         let (_cw, waker) = new_waker();
         let mut w = World {
@@ -371,6 +374,23 @@ impl C16 {
         };
 
         for (idx, it) in self.items.iter().enumerate() {
+            if self.rewrap_at == Some(idx as u32) {
+                // the writer is idle here (every frame is driven to completion): hand its parts to a fresh writer
+                let (sink, buf) = writer.into_parts();
+                writer = AsyncWriter::with_buffer(sink, buf);
+                if self.max_len_mode != 0 && idx > knob_at {
+                    writer.set_max_len(knob_len as u32);
+                }
+                obs.borrow_mut().probe(pb::rewrap_at_boundary);
+            }
+            if self.max_len_mode != 0 && idx == knob_at {
+                writer.set_max_len(knob_len as u32);
+                obs.borrow_mut().fault(fk::max_len_knob);
+                if idx > 0 {
+                    obs.borrow_mut().probe(pb::max_len_changed_mid_run);
+                }
+            }
+            let max_len = max_len_for(idx);
             if it.sync_before {
                 idle_sync(&mut w, &mut writer, &waker, &format!("idle sync before write #{idx}"), false)?;
             }
@@ -495,6 +515,8 @@ impl Scenario for C16 {
             .set("max_len_mode", self.max_len_mode as u32)
             .set("init_buf", self.init_buf)
             .set("use_ctx", self.use_ctx)
+            .set("knob_at", self.knob_at)
+            .set("rewrap_at", self.rewrap_at)
             .set("sink", lane_to_json(&self.sink))
             .set("caller", decides_to_json(&self.caller))
     }
@@ -504,6 +526,8 @@ impl Scenario for C16 {
             max_len_mode: j.get("max_len_mode").and_then(|c| c.as_u64()).unwrap_or(0) as u8,
             init_buf: j.get("init_buf").and_then(|c| c.as_u64()).unwrap_or(0) as u32,
             use_ctx: j.get("use_ctx").and_then(|c| c.as_bool()).unwrap_or(false),
+            knob_at: j.get("knob_at").and_then(|c| c.as_u64()).unwrap_or(0) as u32,
+            rewrap_at: j.get("rewrap_at").and_then(|c| c.as_u64()).map(|c| c as u32),
             sink: lane_from_json(j.get("sink"))?,
             caller: decides_from_json(j.get("caller"))?,
         })
@@ -567,6 +591,12 @@ impl Scenario for C16 {
         if self.use_ctx {
             out.push(C16 { use_ctx: false, ..self.clone() });
         }
+        if self.knob_at != 0 {
+            out.push(C16 { knob_at: 0, ..self.clone() });
+        }
+        if self.rewrap_at.is_some() {
+            out.push(C16 { rewrap_at: None, ..self.clone() });
+        }
         out
     }
 }
@@ -578,7 +608,7 @@ fn val(ty: Ty, size: u32, seed: u64) -> Item {
 }
 
 fn base(items: Vec<Item>) -> C16 {
-    C16 { items, max_len_mode: 0, init_buf: 0, use_ctx: false, sink: vec![], caller: vec![] }
+    C16 { items, max_len_mode: 0, init_buf: 0, use_ctx: false, knob_at: 0, rewrap_at: None, sink: vec![], caller: vec![] }
 }
 
 fn total_len(items: &[Item]) -> usize {
@@ -598,7 +628,7 @@ const W_TYS: &[Ty] = &[
 ];
 
 fn generate_single(r: &mut Rng, tier: Tier) -> C16 {
-    let big = tier == Tier::Thorough && r.chance(1, 40);
+    let big = r.chance(1, if tier == Tier::Thorough { 40 } else { 400 });
     let nitems = if big { r.range(1, 2) } else { 1 + r.below(8) } as usize;
     let profile = r.below(4);
     let mixed = r.chance(1, 2);
@@ -663,6 +693,8 @@ fn generate_single(r: &mut Rng, tier: Tier) -> C16 {
         max_len_mode: if r.chance(1, 3) { 1 + r.below(3) as u8 } else { 0 },
         init_buf: if r.chance(1, 3) { r.range(1, 300) as u32 } else { 0 },
         use_ctx: r.chance(1, 8),
+        knob_at: if r.chance(1, 4) { r.below(nitems as u64) as u32 } else { 0 },
+        rewrap_at: if r.chance(1, 6) { Some(r.below(nitems as u64) as u32) } else { None },
         sink,
         caller,
     }
